@@ -4,16 +4,19 @@ import os
 from lib import vf
 
 RULE = ("one case = geometry file (plain/gzip, 0-40 rows, linestrings of 0-6 grid points, optionally an unparsable row), "
-        "identifier file, request, 0-3 routes of 0-30 edges and 0-3 trees of 0-60 branches (or a failed search), run "
+        "identifier file (raw text: blank / whitespace-only rows at the start, middle, end, rows with surrounding spaces, "
+        "duplicates, LF or CRLF, terminated or not, plain/gzip; the model splits the text like BufRead::lines, the "
+        "specification says row i = vertex i), request, 0-3 routes of 0-30 edges and 0-3 trees of 0-60 branches (or a failed search), run "
         "through the real plugin builders and apply_output_processing once per chain: [traversal(f,f)] for each of the "
         "five formats, [summary], [uuid], one random full chain, plus every plugin called directly on a failed search; "
         "the responses are re-parsed with serde_json/geojson/wkt/wkb into id lists, records, coordinate lists (trees as "
         "sorted multisets) and compared with the model's (M) and with the specification's (S: map/flat_map/nth over the "
         "raw route, tree and tables); deterministic boundary families first (route lengths 1..30 with descending ids, "
         "repeated edges, a missing geometry at every position, degenerate linestrings, 0/2/3 routes and trees, shared "
-        "tree edges, identifier positions, ill-typed requests, unparsable rows, every plugin order). non-trivial = some "
+        "tree edges, identifier positions, identifier files with blank rows queried at and after the blank row, ill-typed requests, unparsable rows, every plugin order). non-trivial = some "
         "route has >= 2 edges with distinct stored geometries, or a tree has >= 2 branches, or an edge has no stored "
-        "geometry / a route is empty / a file row does not parse; distinct by case")
+        "geometry / a route is empty / a file row does not parse / the origin or destination index lies at or after a "
+        "blank identifier row that precedes an identifier; distinct by case")
 
 
 def classify(case, i, m, s):
@@ -41,7 +44,7 @@ def run(chk):
         chk.coverage["streams"]["corpus"] = {"cases": rc.stats.get("cases", 0),
                                              "rule": "corpus/C20/witnesses.json replayed (same comparison as the main stream)"}
         vf.compare(chk, rc, classify=classify, binpath=binp, stream_label="corpus")
-    n = 500 if chk.tier == "quick" else 6000
+    n = 600 if chk.tier == "quick" else 6000
     extra = [] if chk.tier == "quick" else ["--thorough"]
     r = vf.run_stream(binp, "output", n, chk.seed, os.path.join(chk.outdir, "output"), extra=extra, replay=chk.replay)
     chk.add_stream(r, RULE)
